@@ -181,6 +181,17 @@ class CallMixin:
     def call_func(self, f, args, kwargs, st, frame, node, static_cls=None):
         ctx = self.ctx
         key = (f.module, f.qualname)
+        ac = None
+        if frame.verifying and frame.contract is not None:
+            ac = getattr(frame, 'view', None).at_calls if getattr(frame, 'view', None) is not None else frame.contract.at_calls
+        if ac:
+            specs = ac.get(f.node.name) or ac.get(f.qualname)
+            if specs:
+                sp = st.fork()
+                sp.spec = True
+                sp.pc = st.pc
+                for i, e in enumerate(specs):
+                    self.oblige(st, self.spec_bool(e, sp, frame), 'at-call[%s]#%d' % (f.node.name, i), frame, node, e)
         c = ctx.contracts.get(key)
         being_verified = frame.verifying and frame.finfo is f
         if c is not None and not (frame.contract is not None and key in
@@ -234,9 +245,10 @@ class CallMixin:
         ctx = self.ctx
         bound = self.bind_args(f, args, kwargs, st, frame)
         # evaluate the contract in a spec state whose locals are the parameters
+        cast = self.cast_params(c, bound, st)
         pre = st.fork()
         pre.spec = True
-        pre.locals = self.cast_params(c, bound, pre)
+        pre.locals = cast
         pre.old = None
         sub = Frame(f.module, f.cls, f, c)
         label = '%s.%s' % (f.module.replace('zeroconf.', ''), f.qualname)
@@ -285,7 +297,7 @@ class CallMixin:
             res = NoneV()
         for gname, gts in c.ghost_out.items():
             post.locals[gname] = self.fresh_val('go_' + gname, parse_type(gts), st)
-        for e in c.ensures:
+        for e in c.all_ensures():
             st.assume(self.spec_bool(e, post, sub))
         yield st, res
 
@@ -359,7 +371,12 @@ class CallMixin:
 
     def spec_bool(self, text, st, frame):
         node = self.parse_spec(text)
-        v = self.ev1(node, st, frame)
+        try:
+            v = self.ev1(node, st, frame)
+        except VCError:
+            raise
+        except Exception as e:
+            raise VCError('while evaluating spec %r in %s: %s: %s' % (text[:200], frame.label, type(e).__name__, e))
         return self.truth(v, st)
 
     def parse_spec(self, text):
@@ -385,9 +402,7 @@ class CallMixin:
         o = fresh('new_' + clsname, Ref)
         st.assume(o != NONE)
         st.assume(ctx.shapes.exact_class_term(o, clsname))
-        st.assume(z3.Not(z3.Select(ctx.alive0, o)))
-        for r in self.known_refs(st):
-            pass
+        st.allocate(o)
         obj = RefV(o, ref(clsname), False)
         f = ctx.repo.find_method(clsname, '__init__')
         if f is None:
